@@ -29,7 +29,7 @@ def build():
     fn = src.item("pub fn run_dedupe(")
     ub.spec(PRELUDE)
     # structural anchor: the top-level statement of run_dedupe that assigns `dedupe_config.modified_before`
-    ub.piece(Piece(src.top_stmt(fn, "dedupe_config.modified_before =")))
+    ub.piece(Piece(src.top_stmt(fn, "dedupe_config.modified_before = ")))
     ub.spec("\n}\n\n} // verus!\nfn main() {}\n")
     ub.functions = ["main::run_dedupe [statement slice: default of modified_before]"]
     ub.assumptions = [
